@@ -136,6 +136,26 @@ def run_case(c):
             except Exception as exc:
                 o['exc'] = '%s: %s' % (type(exc).__name__, str(exc)[:80])
             ev['obs'] = o
+        elif op == 'latesym':
+            # a symbol is unknown (text with it is rejected), then a unit is declared under it: from then on the text parses
+            from quantity import QuantityError
+            from adapters.calc import mk_amount
+            sym = c['sym']
+            o = dict(first_rejected=False, parses=False, typed=False, strunit=False)
+            try:
+                Quantity('3 ' + sym)
+            except QuantityError:
+                o['first_rejected'] = True
+            bq = Unit('bq')
+            cls = bq.qty_cls
+            try:
+                u = cls.new_unit(sym, None, mk_amount([2, 1], 'dec') * bq)
+                o['parses'] = Quantity('3 ' + sym).unit is u and Quantity('3 ' + sym).amount == 3
+                o['typed'] = cls('3 ' + sym).unit is u
+                o['strunit'] = Quantity('3 ' + sym, bq).amount == 6 and Quantity('3 ' + sym, bq).unit is bq
+            except Exception as exc:
+                o['exc'] = type(exc).__name__
+            ev['obs'] = o
         elif op == 'strunit':
             text = ''.join(chr(x) for x in c['codes'])
             try:
